@@ -39,6 +39,14 @@ Implementation driven (all in-process, real code):
     C/L/D/R also: variables whose values are YAML scalars of every TYPE (bool, int, float, texts that look like them) at every scope
     (global, stage, both, platform global / stage, component) in half of the workflows, referenced by arguments; the [META] section of
     every written stage file is compared with Rewrite.meta_via_file (typed variables -> str -> text layer);
+ W. ONE description OBJECT written several times (the writers are handed the dictionaries of the description, not a copy): every
+    component of A/B/G is rendered twice by Dosini._flowir_component_to_dict on one object (the object must stay what it was, the second
+    section be the first); components with options set / set to None / absent rendered 1-3 times through _flowir_component_to_dict,
+    Dosini.configuration_for_stage (instance and package flavour) and the _comp_*_to_* writers one by one, sections and the object
+    afterwards compared with coq/Dosini/Render.v (render_seq: store model of _translate_dict_to_dict); generated workflows whose instance
+    (or package) description is rendered one to four times (configuration_for_stage of one / all stages, _flowir_component_to_dict of a
+    component, Dosini.dump, _dump_status, _dump_output, _dump_experiment_root_conf into scratch directories) and THE SAME OBJECT is then
+    written with Dosini.dump and loaded: full predicate against the description as it was before the first render;
  T. the configparser text layer alone (harness/c19_text.py): tables of sections through the real FlowConfigParser
     (add_section/set/write, read) and hostile raw texts through its reader, against coq/Dosini/Text.v.
 The per-component model comparison of C/D goes through both layers (Model.via_file).
@@ -92,6 +100,9 @@ ASSUMPTIONS = [
     'missing); the reference "files of the same write into an empty directory" of an instance is taken in a directory that holds the '
     'variables files already (an instance never rewrites them; the write that creates variables.conf folds the blueprint of a stage '
     'into the variables of the stage, see Rewrite.check_meta_case)',
+    'a description object handed to the writers is a tree of dictionaries; Render.v models the dictionaries of one component as ONE object '
+    'holding the dotted option paths (a None value is a cell holding None) and the private copy of _translate_dict_to_dict as a new object '
+    'of the store; the sequences of renders on one object are generated for one thread (no concurrent renders)',
     'stage indices spelled as text (stage10, STAGE10): int() is modelled for decimal digits (coq/Dosini/Stages.v); a sign, blanks or '
     '_ separators after the word stage are not generated',
 ]
@@ -236,14 +247,26 @@ def classes_of_component(opts, variables):
     return cl
 
 
-def component_roundtrip(opts, variables):
+def component_roundtrip(opts, variables, problems=None):
     """real writers + real reader on one component; returns (ini or None, loaded flat opts or None, loaded vars, exc)"""
     import experiment.model.frontends.dosini as D
     import experiment.model.errors as E
     comp = unflatten(opts)
     if variables:
         comp['variables'] = dict(variables)
-    d = D.Dosini._flowir_component_to_dict(copy.deepcopy(comp))
+    # the writers are handed the dictionaries of the description itself (as Dosini.configuration_for_stage hands them the
+    # components of the description): ONE object is rendered twice; the object must stay what it was and the second section be the
+    # first one (the section of the first render is the one that is loaded and compared with the model)
+    snapshot = copy.deepcopy(comp)
+    d = D.Dosini._flowir_component_to_dict(comp)
+    first = d
+    if problems is not None:
+        again = D.Dosini._flowir_component_to_dict(comp)
+        if comp != snapshot:
+            problems.append(('rendering a component in the legacy format modifies the description it is handed [%s]' %
+                             changed_member(snapshot, comp), first_diff(snapshot, comp)))
+        if first != again:
+            problems.append(('the same component object is rendered differently the second time', first_diff(first, again)))
     ini = {k: str(v) for k, v in d.items() if v is not None}
     try:
         back = D.Dosini.parse_component(dict(ini), 'c', 0)
@@ -264,7 +287,8 @@ def explore_components(ctx, cases, tag):
         for bo, bv in before:
             # loads made in this process just before the observed one (state kept between loads must not matter)
             component_roundtrip(bo, bv)
-        ini, out, outvars, exc = component_roundtrip(opts, variables)
+        problems = []
+        ini, out, outvars, exc = component_roundtrip(opts, variables, problems)
         nontrivial = len(opts) + len(variables) >= 1
         ctx.case([tag, sorted((k, repr(v)) for k, v in opts.items()), sorted(variables.items())] +
                  ([[sorted(bo.items()), sorted(bv.items())] for bo, bv in before] if before else []), nontrivial)
@@ -279,6 +303,8 @@ def explore_components(ctx, cases, tag):
         if before:
             desc['loaded_before'] = [{'options': bo, 'variables': bv} for bo, bv in before]
         # ---- property predicate on the implementation
+        for what, detail in problems:
+            ctx.fail(dict(desc, difference=detail), what, cls)
         if out is None:
             ctx.fail(desc, 'a written component cannot be loaded again (%s)' % exc, cls)
         else:
@@ -292,7 +318,9 @@ def explore_components(ctx, cases, tag):
             lost = sorted(set(expect) - set(out))
             extra = sorted(set(out) - set(expect))
             changed = sorted(p for p in expect if p in out and not same_value(p, expect[p], out[p]))
-            if lost and K[lost[0]][0] not in ini:
+            if lost and lost[0] not in K:
+                ctx.fail(desc, 'option %s, which the reader derives from another option of the component, is not read back' % lost[0], cls)
+            elif lost and K[lost[0]][0] not in ini:
                 ctx.fail(desc, 'option %s is not written although the format spells it %s' % (lost[0], K[lost[0]][0]), cls)
             elif lost:
                 ctx.fail(desc, 'option %s is written but not read back' % lost[0], cls)
@@ -320,6 +348,200 @@ def explore_components(ctx, cases, tag):
             desc, ini, out = keep[i]
             ctx.disagree(desc, {'section': ini, 'loaded': out},
                          ctx.model_eval(HEADER, 'roundtrip_c (fst %s)' % t_case[i])[:600] if k < 2 else '', name)
+
+
+# ------------------------------------------------------------------ stream W: ONE description object rendered several times
+def changed_member(a, b):
+    """the top-level member of a dictionary that differs (for the text of a failure)"""
+    d = first_diff(a, b) or ''
+    return d.lstrip('.').split(':')[0].split(' ')[0].split('.')[0]
+
+
+def cells_of(comp):
+    """component dict -> {dotted path: value or None}: like c19_gen.flatten, but an option holding None is a cell holding None"""
+    out = {}
+
+    def rec(d, pre):
+        for k, v in d.items():
+            p = pre + (str(k),)
+            if p[0] in c19_gen.STRUCTURAL and len(p) == 1:
+                continue
+            if p[0] == 'executors' and len(p) == 2:
+                for ex in (v or []):
+                    for kk, vv in ex.items():
+                        if kk != 'name':
+                            out['.'.join(p + (ex.get('name', '?'), kk))] = vv
+                continue
+            if isinstance(v, dict):
+                rec(v, p)
+            else:
+                out['.'.join(p)] = v
+    rec(comp, ())
+    return out
+
+
+def ccells(d):
+    return clist(sorted(d.items()), lambda kv: '(%s, %s)' % (cstr(kv[0]), copt(None if kv[1] is None else cval(kv[1]))))
+
+
+RENDER_ENTRIES = ['component', 'component', 'stage-instance', 'stage-package', 'writers']
+
+
+def render_sequence_cases(rng, n):
+    """(cells {path: value or None}, variables, number of renders, entry point): components whose options are set, set to None
+    (about a fifth of the cells of half of the cases) or absent, rendered 1-3 times through Dosini._flowir_component_to_dict, through
+    Dosini.configuration_for_stage of a description holding the component (instance and package flavour), or through each
+    _comp_*_to_* writer on its own followed by _flowir_component_to_dict"""
+    K = kinds()
+    paths = sorted(K)
+    groups = option_groups()
+    cases = []
+    # the whole of every group of options (the options one writer handles together), rendered twice: systematic
+    for g in sorted(groups):
+        cases.append(({p: pick_value(rng, p, K[p][2], False) for p in groups[g]}, {}, 2, RENDER_ENTRIES[len(cases) % len(RENDER_ENTRIES)]))
+    for _ in range(n):
+        k = rng.choice([1, 2, 3, 5, 8, 12, len(paths)])
+        cells = {p: pick_value(rng, p, K[p][2], False) for p in rng.sample(paths, min(k, len(paths)))}
+        if rng.random() < 0.5:
+            for p in sorted(cells):
+                if p != 'references' and rng.random() < 0.2:
+                    cells[p] = None
+        variables = {}
+        for _j in range(rng.choice([0, 0, 1, 2])):
+            variables[rng.choice(['george', 'n', 'my-var', 'x.y', 'UPPER'])] = rng.choice(['of the jungle', 3, '2.5', True, 'a b'])
+        cases.append((cells, variables, rng.choice([1, 2, 2, 3]), rng.choice(RENDER_ENTRIES)))
+    return cases
+
+
+def render_component(comp, entry):
+    """one render of the component OBJECT comp through the given entry point; returns the entries of its section as text"""
+    import experiment.model.frontends.dosini as D
+    if entry in ('stage-instance', 'stage-package'):
+        flowir = {'components': [comp], 'variables': {'default': {'global': {}, 'stages': {}}}}
+        cfg = D.Dosini.configuration_for_stage(flowir, comp['stage'], is_instance=(entry == 'stage-instance'))
+        return {o: cfg.get(comp['name'], o, raw=True) for o in cfg.options(comp['name'])}
+    if entry == 'writers':
+        for writer in (D.Dosini._comp_workflow_attributes_to_dict, D.Dosini._comp_command_to_dict, D.Dosini._comp_resource_request_to_dict,
+                       D.Dosini._comp_resource_manager_to_str, D.Dosini._comp_executors_to_str):
+            writer(comp)
+    d = D.Dosini._flowir_component_to_dict(comp)
+    return {k: str(v) for k, v in d.items() if v is not None}
+
+
+def explore_renders(ctx, cases):
+    terms, keep = [], []
+    for cells, variables, n, entry in cases:
+        comp = unflatten(cells)
+        if variables:
+            comp['variables'] = dict(variables)
+        snapshot = copy.deepcopy(comp)
+        outs = []
+        for _ in range(n):
+            try:
+                outs.append(render_component(comp, entry))
+            except Exception as e:
+                outs.append(None)
+                exc = '%s: %s' % (type(e).__name__, str(e)[:200])
+        after = cells_of(comp)
+        desc = {'stream': 'W', 'cells': cells, 'variables': variables, 'renders': n, 'entry': entry}
+        ctx.case(['W', sorted((k, repr(v)) for k, v in cells.items()), sorted(variables.items()), n, entry], bool(cells))
+        ctx.count('W_components')
+        ctx.count('W_entry:' + entry)
+        ctx.count('W_renders:%d' % n)
+        if any(v is None for v in cells.values()):
+            ctx.count('W_with_a_cell_holding_None')
+        for p in cells:
+            ctx.count('option:' + p) if cells[p] is not None else None
+        # ---- predicate: the render is an observation of the description, and repeatable
+        if None in outs:
+            ctx.fail(dict(desc, error=exc), 'a component cannot be rendered in the legacy format (render %d of the same object)' % (outs.index(None) + 1), [])
+        if comp != snapshot:
+            ctx.fail(dict(desc, difference=first_diff(snapshot, comp)),
+                     'rendering a component in the legacy format modifies the description it is handed [%s]' % changed_member(snapshot, comp), [])
+        for k in range(1, n):
+            if outs[k] != outs[0]:
+                ctx.fail(dict(desc, first=outs[0], again=outs[k]), 'the same component object is rendered differently the second time', [])
+                break
+        terms.append('(%s, %s, %s, %s, %s)' % (ccells(cells), clist(sorted(variables.items()), lambda kv: '(%s, %s)' % (cstr(kv[0]), cstr(str(kv[1])))),
+                                               common.cnat(n), clist(outs, lambda o: copt(None if o is None else cini(o))), ccells(after)))
+        keep.append((desc, outs, after))
+        if len(cells) > 2 and n > 1:
+            ctx.sample(dict(desc, sections=outs), limit=4)
+    RH = HEADER.replace('V.Dosini.Model.', 'V.Dosini.Model V.Dosini.Render.')
+    bad = ctx.model_mismatches(RH, terms, 'check_render_case', chunk=250, name='W_render')
+    for k, i in enumerate(bad):
+        desc, outs, after = keep[i]
+        ctx.disagree(desc, {'sections': outs, 'cells_afterwards': after}, '',
+                     'C19 renders of one description object: Dosini._flowir_component_to_dict / configuration_for_stage vs Dosini.Render.render_seq')
+
+
+RENDER_OPS = [['all-stages'], ['all-stages'], ['stage', 0], ['stage', 1], ['component', 0], ['component', 1], ['dump'], ['status'], ['output'],
+              ['root']]
+
+
+def apply_renders(obj, ops, is_instance, log):
+    """the operations `ops` applied, in turn, to the description OBJECT obj (no copy is made): renders of stages through
+    Dosini.configuration_for_stage, of single components through Dosini._flowir_component_to_dict, whole dumps into scratch directories.
+    Afterwards obj must be the description it was, and a stage rendered twice must give the same text twice."""
+    import experiment.model.frontends.dosini as D
+    snapshot = copy.deepcopy(obj)
+    stages = sorted(set(c['stage'] for c in obj['components']))
+    texts = {}
+    tmp = tempfile.mkdtemp(prefix='verif_c19w_')
+    try:
+        for k, op in enumerate(ops):
+            todo = []
+            if op[0] == 'all-stages':
+                todo = list(stages)
+            elif op[0] == 'stage':
+                todo = [stages[op[1] % len(stages)]]
+            try:
+                for st in todo:
+                    cfg = D.Dosini.configuration_for_stage(obj, st, is_instance=is_instance)
+                    text = {sec: {o: cfg.get(sec, o, raw=True) for o in cfg.options(sec)} for sec in cfg.sections()}
+                    if st in texts and texts[st] != text and not any(x[0].startswith('a stage') for x in log):
+                        log.append(('a stage of the same description object is rendered differently the second time', first_diff(texts[st], text)))
+                    texts.setdefault(st, text)
+                if op[0] == 'component':
+                    D.Dosini._flowir_component_to_dict(obj['components'][op[1] % len(obj['components'])])
+                elif op[0] == 'dump':
+                    D.Dosini.dump(obj, os.path.join(tmp, 'd%d' % k), is_instance=is_instance)
+                elif op[0] == 'status':
+                    os.makedirs(os.path.join(tmp, 's%d' % k))
+                    D.Dosini._dump_status(obj, os.path.join(tmp, 's%d' % k))
+                elif op[0] == 'output':
+                    os.makedirs(os.path.join(tmp, 'o%d' % k))
+                    D.Dosini._dump_output(obj, os.path.join(tmp, 'o%d' % k))
+                elif op[0] == 'root':
+                    D.Dosini._dump_experiment_root_conf(obj, os.path.join(tmp, 'root%d.conf' % k))
+            except Exception as e:
+                log.append(('a description that can be written cannot be rendered (%s of %s)' % (op[0], type(e).__name__), str(e)[:200]))
+            if obj != snapshot and not any(x[0].startswith('rendering') for x in log):
+                log.append(('rendering a description in the legacy format (%s) modifies the description it is handed [%s]' % (
+                    {'all-stages': 'Dosini.configuration_for_stage', 'stage': 'Dosini.configuration_for_stage',
+                     'component': 'Dosini._flowir_component_to_dict', 'dump': 'Dosini.dump', 'status': 'Dosini._dump_status',
+                     'output': 'Dosini._dump_output', 'root': 'Dosini._dump_experiment_root_conf'}[op[0]],
+                    changed_member(snapshot, obj)), first_diff(snapshot, obj)))
+    finally:
+        shutil.rmtree(tmp, ignore_errors=True)
+
+
+def render_then_write_cases(rng, paths, n_instance, n_package):
+    """stream W (workflows): a description object is rendered one to four times (RENDER_OPS) and THE SAME OBJECT is then written with
+    Dosini.dump and loaded: full round-trip predicate against the description as it was before the first render"""
+    out = []
+    for i in range(n_instance + n_package):
+        package = i >= n_instance
+        while True:
+            w = gen_doc(rng, rng.sample(paths, 10), long=(rng.random() < 0.08))
+            if not classes_of_workflow(w):
+                break
+        ops = [copy.deepcopy(rng.choice(RENDER_OPS)) for _ in range(rng.choice([1, 1, 2, 3, 4]))]
+        w = dict(w, renders=ops)
+        if package:
+            w['flavour'] = 'package'
+        out.append(w)
+    return out
 
 
 # ------------------------------------------------------------------ generators: components
@@ -760,7 +982,7 @@ def listing(conf):
     return out
 
 
-def write_description(w, conf, update_existing=True):
+def write_description(w, conf, update_existing=True, log=None):
     """one write of a description into a configuration directory, as DOSINIExperimentConfiguration does it for an instance
     (FlowIRConcrete.instance + Dosini.dump(is_instance=True); status.conf / output.conf stand for the files the instance inherits from
     its package: written when the write updates the directory or they are missing); flavour 'package': Dosini.dump of the raw
@@ -770,9 +992,26 @@ def write_description(w, conf, update_existing=True):
     concrete = F.FlowIRConcrete(copy.deepcopy(w['doc']), w['platform'], {})
     if w.get('flavour') == 'package':
         raw = concrete.raw()
+        if w.get('renders'):
+            expected = copy.deepcopy(raw)
+            apply_renders(raw, w['renders'], False, log if log is not None else [])
+            D.Dosini.dump(raw, conf, is_instance=False, update_existing=update_existing)
+            return expected
         D.Dosini.dump(copy.deepcopy(raw), conf, is_instance=False, update_existing=update_existing)
         return raw
     inst = concrete.instance(ignore_errors=True, inject_missing_fields=False, fill_in_all=False, is_primitive=True)
+    if w.get('renders'):
+        # the description object is rendered, then THE SAME OBJECT is written (no copy anywhere); what is returned - what the load
+        # is compared with - is the description as it was before the first render
+        expected = copy.deepcopy(inst)
+        apply_renders(inst, w['renders'], True, log if log is not None else [])
+        D.Dosini.dump(inst, conf, is_instance=True, update_existing=update_existing)
+        D.Dosini._dump_status(inst, conf)
+        D.Dosini._dump_output(inst, conf)
+        if inst != expected and log is not None and not any(x[0].startswith('rendering') for x in log):
+            log.append(('writing a description in the legacy format (Dosini.dump) modifies the description it is handed [%s]' %
+                        changed_member(expected, inst), first_diff(expected, inst)))
+        return expected
     D.Dosini.dump(copy.deepcopy(inst), conf, is_instance=True, update_existing=update_existing)
     if update_existing or not os.path.exists(os.path.join(conf, 'status.conf')):
         D.Dosini._dump_status(copy.deepcopy(inst), conf)
@@ -821,15 +1060,17 @@ def instance_roundtrip(w):
                         os.makedirs(os.path.dirname(os.path.join(fresh, f)), exist_ok=True)
                         shutil.copy(os.path.join(conf, f), os.path.join(fresh, f))
             try:
-                write_description(w, fresh, update)
+                # the reference: the same description written ONCE, without any render before
+                write_description(dict(w, renders=None), fresh, update)
                 ret['dir_fresh'] = listing(fresh)
                 if package:
                     ret['loaded_fresh'] = D.Dosini.load_from_directory(fresh, [], {}, is_instance=False, out_errors=[])
             except Exception as e:
                 ret['dir_fresh'] = None
         inst = None
+        ret['render_problems'] = []
         try:
-            inst = write_description(w, conf, update)
+            inst = write_description(w, conf, update, ret['render_problems'])
         except Exception as e:
             return dict(ret, inst=inst, loaded=None, error='dump: %s' % type(e).__name__, detail=str(e)[:300])
         if sequence:
@@ -1168,6 +1409,12 @@ def explore_instances(ctx, workflows, tag):
         desc = {'stream': tag, 'workflow': w}
         package = w.get('flavour') == 'package'
         update = w.get('update_existing', True)
+        if w.get('renders'):
+            ctx.count('rendered_before_it_is_written:%s' % w.get('flavour', 'instance'))
+            for op in w['renders']:
+                ctx.count('render_op:' + op[0])
+        for what, detail in r.get('render_problems') or []:
+            ctx.fail(dict(desc, difference=detail), what, cls)
         if w.get('before'):
             ctx.count('written_into_a_directory_holding_an_earlier_description:%s:update_existing=%s' % (w.get('flavour', 'instance'), update))
             ctx.count('earlier_description:' + str(w.get('relation', 'other')))
@@ -1312,7 +1559,10 @@ def run(ctx):
                 'typed variables (bool/int/float/number-like texts at 1..6 scopes, REF_VARS retyped in half of them) in 50% of the C/L/D/R workflows; '
                 'R: 28 sequences per quick run (20 instance - every 4th with update_existing=False - and 8 package; relation of the earlier '
                 'description cycled over more-stages x2, more-components, other-platform, same, other, other-long; 30% with a second earlier one) '
-                '+ update_existing=False into an empty directory')
+                '+ update_existing=False into an empty directory; W: every component of A/B/G rendered twice on one object; 120 components '
+                '(+ the whole of every group of options) with 20% of the cells of half of them holding None, rendered 1-3 times through one of '
+                '_flowir_component_to_dict x2 / configuration_for_stage instance / package / the writers one by one; 11 workflows per quick run '
+                '(8 instance, 3 package) + 3 fixed ones whose description object is rendered 1-4 times (ops drawn from RENDER_OPS) and then written')
     gen_path = os.path.join(common.COQ, COQ_DIR, 'Generated.v')
     ctx.extra['generated_tables'] = {
         'regenerated_before_proof_build': True,
@@ -1353,7 +1603,9 @@ def run(ctx):
     flows += [(gen_doc(rng, rng.sample(paths, 12), long=True), 'L') for _ in range(6 if quick else 60)]
     flows += [(gen_doc(rng, rng.sample(paths, 10), hostile=True), 'D') for _ in range(15 if quick else 150)]
     flows += [(w, 'R') for w in rewrite_cases(rng, paths, 20 if quick else 200, 8 if quick else 80)]
+    flows += [(w, 'W') for w in render_then_write_cases(rng, paths, 8 if quick else 80, 3 if quick else 30)]
     explore_instances(ctx, flows, 'CLD')
+    explore_renders(ctx, render_sequence_cases(rng, 120 if quick else 1200))
     c19_envs.explore(ctx, 150 if quick else 1500)
     c19_stages.explore(ctx, 60 if quick else 600)
     c19_text.explore(ctx, 120 if quick else 1200, 120 if quick else 1200)
@@ -1382,6 +1634,8 @@ def replay(ctx, path):
         explore_components(ctx, sequence_cases(ctx.rng), 'P')
         tables_now(ctx, 'after the components of every backend were loaded (parse_component)', {})
         c19_proc.compare_with_fresh_process(ctx)
+    elif c.get('stream') == 'W' and 'cells' in c:
+        explore_renders(ctx, [(c['cells'], c.get('variables', {}), c.get('renders', 2), c.get('entry', 'component'))])
     elif 'table' in c or 'text' in c:
         c19_text.explore(ctx, 0, 0, only_table=c.get('table'), only_text=c.get('text') if 'table' not in c else None)
     elif 'workflow' in c:
